@@ -153,6 +153,21 @@ Theorem c03x_suspension_marks_loaded_topic_partial : forall x u b c a,
   ca (xb x) = Some c -> c_owner c = u -> alookup u (users (st (xb x))) = Some a -> memN u (x_susp x) = negb b ->
   x_ro (suspend x NoFault u b) = b.
 Proof. exact suspend_marks. Qed.
+
+(* both halves together: after ANY history of the wrapper model - requests with Fail/Crash at any adapter call,
+   deletions in two halves, suspensions, publishes to me/fnd/sys - that avoids the two named triggers, a publish
+   is acknowledged iff no delete is in flight, the topic is not read-only, the session is attached and the
+   author's STORED want and STORED given both have W *)
+Theorem c03x_accepted_iff_stored_history : forall s h sid content noecho, fresh s -> wf_store s ->
+  xsafe_run dr nr sm (xinit s) h ->
+  let x := fst (xrun dr nr sm (xinit s) h) in
+  ((exists n, first_reply (snd (xstep dr nr sm x (EBase NoFault (OPub sid content noecho)))) sid = Some (Ctrl 202 [(P_seq, n)]))
+   <-> xaccepts_stored sm x sid = true).
+Proof.
+  intros s h sid content noecho F W SR x.
+  rewrite <- (xaccepts_stored_eq sm x sid (cohx_xrun dr nr sm h (xinit s) SR W)).
+  apply c03x_accepted_iff_history. exact F.
+Qed.
 End C03.
 
 Print Assumptions c03_accepted_iff.
@@ -173,6 +188,7 @@ Print Assumptions c03x_search_topic_refuses.
 Print Assumptions c03x_sys_accepts_without_attachment.
 Print Assumptions c03x_sys_failed_stores_nothing.
 Print Assumptions c03x_suspension_marks_loaded_topic_partial.
+Print Assumptions c03x_accepted_iff_stored_history.
 
 (* The full statement - the decision follows the STORED grant after EVERY history - is refuted by the
    faithful model (and replayed on the real code, findings/C03.md): *)
